@@ -140,6 +140,7 @@ FUNCS = {
     "ceil": ("pyCeil", "pyCeilR", "Float.ceil"),
     "int": ("pyInt", "pyIntR", "pyIntF"),
     "float": ("", "", ""),
+    "tuple": ("", "", ""),  # tuple(x) of a tuple-valued parameter: identity
     "min": ("min", "min", "pyMinF"),
     "max": ("max", "max", "pyMaxF"),
     "minimum": ("min", "min", "pyMinF"),
@@ -290,7 +291,7 @@ class Tx:
                 return f"(if {self.e(n.args[0])} then {self.e(n.args[1])} else {self.e(n.args[2])})"
             lf = self.f(name)
             args = " ".join(self.e(a) for a in n.args)
-            if name == "float":
+            if name in ("float", "tuple") and len(n.args) == 1:
                 return self.e(n.args[0])
             return f"({lf} {args})"
         if isinstance(n, ast.Tuple):
@@ -317,6 +318,8 @@ def emit_site(src: Source, site: dict, mode: str):
     fn = src.func(site["file"], site["func"])
     text = (src.repo / site["file"]).read_text()
     node = select(fn, tuple(site["select"]))
+    for step in site.get("path", ()):  # descend into the selected expression: AST field names / list indices
+        node = node[step] if isinstance(step, int) else getattr(node, step)
     inline = {}
     for var, sel in site.get("inline", {}).items():
         inline[var] = select(fn, tuple(sel))
